@@ -25,3 +25,34 @@ func VerifVarintLen(i uint64) int64 { return int64(quicvarint.Len(i)) }
 func VerifVarintRead(r interface{ ReadByte() (byte, error) }) (uint64, error) {
 	return quicvarint.Read(r)
 }
+
+// VerifPRNG wraps the unexported seeded prng.
+type VerifPRNG struct{ p *prng }
+
+// VerifNewPRNG builds a prng from a seed (salted through newPRNGWithSaltedSeed when salted).
+func VerifNewPRNG(seed PRNGSeed, salt string, salted bool) (*VerifPRNG, error) {
+	var p *prng
+	var err error
+	if salted {
+		p, err = newPRNGWithSaltedSeed(&seed, salt)
+	} else {
+		p, err = newPRNGWithSeed(&seed)
+	}
+	if err != nil {
+		return nil, err
+	}
+	return &VerifPRNG{p}, nil
+}
+
+func (v *VerifPRNG) Read(b []byte) (int, error)         { return v.p.Read(b) }
+func (v *VerifPRNG) Int63() int64                       { return v.p.Int63() }
+func (v *VerifPRNG) Uint64() uint64                     { return v.p.Uint64() }
+func (v *VerifPRNG) Intn(n int) int                     { return v.p.Intn(n) }
+func (v *VerifPRNG) Int63n(n int64) int64               { return v.p.Int63n(n) }
+func (v *VerifPRNG) Perm(n int) []int                   { return v.p.Perm(n) }
+func (v *VerifPRNG) Range(min, max int) int             { return v.p.Range(min, max) }
+func (v *VerifPRNG) FlipWeightedCoin(w float64) bool    { return v.p.FlipWeightedCoin(w) }
+func (v *VerifPRNG) Shuffle(n int, swap func(i, j int)) { v.p.rand.Shuffle(n, swap) }
+
+// VerifGreaseSeed returns the connection's GREASE seed after ApplyPreset.
+func (uconn *UConn) VerifGreaseSeed() []uint16 { return append([]uint16(nil), uconn.greaseSeed[:]...) }
